@@ -5,7 +5,9 @@ def step(pkg, run="^Test", **kw):
     d.update(kw)
     return d
 
-RECONCILE = lambda: [step("./c01_reconcile/", shards={"thorough": 4}, timeout={"quick": 900, "thorough": 5400})]
+RECONCILE = lambda: [step("./c01_reconcile/", shards={"thorough": 4}, timeout={"quick": 900, "thorough": 5400}),
+                     step("./c01_sessions/", shards={"thorough": 8}, timeout={"quick": 900, "thorough": 5400})]
+RECONCILE_PURE = lambda: [step("./c01_reconcile/", shards={"thorough": 4}, timeout={"quick": 900, "thorough": 5400})]
 
 HOOK_COMMITS = ["ddf102b"]
 
@@ -25,7 +27,7 @@ CHECKS = {
             "text": "Same enumeration incl. untracked/problematic/phantom entries: no planned change covers or lies below unsynchronizable content; all change payloads synchronizable."},
     "C04": {"level": "exploration", "steps": RECONCILE(), "technique": PBT + "; metamorphic (second cycle must be empty)", "note": TREE_NOTE,
             "text": "Plans are applied with ideal results through a model apply and reconciled again: no further changes, same conflict roots, two-way endpoints agree outside conflicts."},
-    "C05": {"level": "fault_enumeration", "steps": RECONCILE(), "technique": PBT + "; enumeration of per-transition outcomes", "note": TREE_NOTE,
+    "C05": {"level": "fault_enumeration", "steps": RECONCILE_PURE(), "technique": PBT + "; enumeration of per-transition outcomes", "note": TREE_NOTE,
             "text": "For each plan every vector of transition outcomes (nothing, Old, New, every partial removal/creation) is enumerated (full product for small plans, deterministic sample beyond) and core.Apply's result is validated and compared with the reported outcomes."},
     "C07": {"level": "exploration", "steps": [step("./c07_tree/", shards={"thorough": 8}, timeout={"quick": 600, "thorough": 3600})],
             "technique": PBT + "; round-trip (diff/apply) and aliasing metamorphic checks", "note": TREE_NOTE,
@@ -49,6 +51,6 @@ CHECKS = {
             "technique": "property-based testing (rapid) on a real filesystem with an interloper editing between scan and transition; oracle = independent lstat/readlink/read walk before and after",
             "note": "The interloper acts between the scan and the transition call (not during it): the documented check-to-use race window inside a transition is out of scope. Runs as root on ext4.",
             "text": "For random trees and plans, 1-3 modifications of every kind the statement lists are applied after the scan; each modified object covered by a transition must still be there afterwards with identical lstat identity, bytes or target, must be reported as a problem, and transitions that were not interfered with must complete."},
-    "C06": {"level": "exploration", "steps": RECONCILE(), "technique": PBT, "note": TREE_NOTE,
+    "C06": {"level": "exploration", "steps": RECONCILE_PURE(), "technique": PBT, "note": TREE_NOTE,
             "text": "Same enumeration: no two actions on equal or nested paths, every action sits at a first disagreement found by an independent walker, conflicts have changes on both sides within their root."},
 }
